@@ -251,6 +251,26 @@ def _manager(ctx):
     init_ws = [ast.unparse(s) for s in pyvc.find_function(tree, 'WeightedSemaphore.__init__').body]
     ctx.add(core.decided('WeightedSemaphore.__init__/establishes-invariant', init_ws[:2] == ['self.max = value', 'self.value = value'] and any(s.startswith('self.events = SortedKeyList(') for s in init_ws), repr(init_ws), kind='scan'))
     ctx.under_contract(PATH, 'WeightedSemaphore.__init__')
+    # callers release exactly what they acquired, once: the transfer semaphore is used through acquire_manager + `async with`
+    # only - no caller acquires or releases it directly (a release in a finally would give back weight a cancelled, still
+    # queued acquire never received)
+    import os as _os
+    direct = []
+    root = _os.path.join(core.REPO, 'hail/python/hailtop')
+    for d, _, files in _os.walk(root):
+        for f in files:
+            if not f.endswith('.py'):
+                continue
+            path = _os.path.join(d, f)
+            if path.endswith('aiotools/weighted_semaphore.py'):
+                continue
+            txt = open(path).read()
+            if 'xfer_sema' not in txt and 'WeightedSemaphore' not in txt:
+                continue
+            for n in ast.walk(ast.parse(txt)):
+                if isinstance(n, ast.Call) and isinstance(n.func, ast.Attribute) and n.func.attr in ('acquire', 'release') and 'xfer_sema' in ast.unparse(n.func.value):
+                    direct.append('%s:%d %s' % (_os.path.relpath(path, core.REPO), n.lineno, ast.unparse(n)[:60]))
+    ctx.add(core.decided('callers/transfer-semaphore-used-only-through-acquire_manager', not direct, repr(direct), kind='scan'))
 
 
 def _rely_lemmas(ctx):
@@ -335,12 +355,59 @@ print(json.dumps(res))
 '''
 
 
+REPLAY_CANCEL = r'''
+import sys, json, os, asyncio, importlib.util, itertools
+spec = importlib.util.spec_from_file_location('ws_real', os.path.join(os.environ['VERIF_REPO'], 'hail/python/hailtop/aiotools/weighted_semaphore.py'))
+m = importlib.util.module_from_spec(spec); spec.loader.exec_module(m)
+async def run(cap, waiters, cancel):
+    # a holder takes the whole capacity, the waiters queue (in order), one of them is cancelled, the holder leaves
+    ws = m.WeightedSemaphore(cap); held = {'now': 0, 'max': 0}; got = set(); gates = {}
+    async def job(name, w):
+        async with ws.acquire_manager(w):
+            held['now'] += w; held['max'] = max(held['max'], held['now']); got.add(name)
+            gates[name] = asyncio.Event()
+            await gates[name].wait()
+            held['now'] -= w
+    h = asyncio.ensure_future(job('holder', cap))
+    for _ in range(3): await asyncio.sleep(0)
+    ts = []
+    for i, w in enumerate(waiters):
+        ts.append(asyncio.ensure_future(job(i, w)))
+        for _ in range(3): await asyncio.sleep(0)
+    ts[cancel].cancel()
+    for _ in range(3): await asyncio.sleep(0)
+    gates['holder'].set()
+    for step in range(4 * len(waiters) + 4):
+        for _ in range(4): await asyncio.sleep(0)
+        open_ = [n for n in list(gates) if n != 'holder' and not gates[n].is_set()]
+        if not open_: break
+        gates[open_[0]].set()
+    for _ in range(6): await asyncio.sleep(0)
+    never = [i for i in range(len(waiters)) if i != cancel and i not in got]
+    value = ws.value
+    for t in ts + [h]: t.cancel()
+    await asyncio.gather(*ts, h, return_exceptions=True)
+    return held['max'], value, never
+res = {'confirmed': False}
+for cap in (4, 8):
+    for n in (2, 3):
+        for ws_ in itertools.product((1, 2, 4), repeat=n):
+            for c in range(n):
+                mx, v, never = asyncio.run(run(cap, list(ws_), c))
+                if mx > cap or v != cap or never:
+                    res = {'confirmed': True, 'input': {'capacity': cap, 'queued_waiter_weights': list(ws_), 'cancelled_waiter': c}, 'max_held': mx, 'value_after_everything_was_released': v, 'waiters_never_granted': never}
+                    print(json.dumps(res)); sys.exit(0)
+print(json.dumps(res))
+'''
+
 _CACHE = {}
 
 
 def _search():
     if 'r' not in _CACHE:
         r = core.run_native(REPLAY, {}, timeout=60)
+        if not r.get('confirmed'):
+            r = core.run_native(REPLAY_CANCEL, {}, timeout=120)
         if not r.get('confirmed'):
             r = core.run_native(REPLAY_SAFETY, {}, timeout=120)
         _CACHE['r'] = r
